@@ -125,6 +125,14 @@ class Writer(object):
                 if isinstance(v, Arr):
                     return v.n
                 return None
+            if e.attr == 'nbytes':
+                # elements x item size; an array whose item size is not fixed by a conversion (the caller's data as they are) has the
+                # symbolic size itemsize(<expr>), which equals no constant: a marker built from it is judged against the payload
+                v = self.ev(e.value)
+                if isinstance(v, Arr) and v.n is not None:
+                    isz = v.isz if v.isz is not None else Poly.atom('itemsize(%s)' % norm(e.value))
+                    return v.n * isz
+                return None
             if e.attr == 'itemsize':
                 lay = self.layout_of(e.value)
                 if lay is not None:
